@@ -234,6 +234,16 @@ def edge_facts(f):
                 if v:
                     out.append((s, targets[0][1], [("lt", ("c", 0), ("len", v))]))
                     out.append((s, t["otherwise"], [("eq", ("len", v), ("c", 0))]))
+    # after `v.push(x)` (push_back, push_front) the container is not empty
+    for s, blk in enumerate(f.blocks):
+        t = blk["term"]
+        if t["k"] != "call" or blk["cleanup"] or t.get("target") is None:
+            continue
+        if callee_matches(t, "Vec::push", "Vec<T, A>::push", "VecDeque::push_back", "VecDeque::push_front", "SmallVec::push", "SmallVec<A>::push") \
+                and t.get("args"):
+            v = _place_text(f, t["args"][0])
+            if v:
+                out.append((s, t["target"], [("lt", ("c", 0), ("len", v))]))
     f._edge_facts = out
     return out
 
@@ -432,6 +442,12 @@ def sub_no_underflow(f, b, rv):
     return None
 
 
+# offsets / lengths inside data that is in memory
+OFFSET_CALLS = ("Utf8Error::valid_up_to", "<impl str>::len", "String::len", "String::capacity", "Vec::capacity", "<impl [T]>::partition_point")
+OFFSET_OPTION_CALLS = ("Utf8Error::error_len", "<impl str>::find", "<impl str>::rfind", "Iterator::position", "Iterator>::position", "Iterator::rposition",
+                       "<impl [T]>::binary_search")
+
+
 def memory_bounded(f, o, depth=8, seen=None):
     """a usize that is a length, an index below a length, a small constant, or a sum / difference of such: bounded by what is in memory"""
     seen = seen if seen is not None else set()
@@ -445,6 +461,9 @@ def memory_bounded(f, o, depth=8, seen=None):
     l = p["local"]
     ty = f.local_ty(l) or ""
     ds = mir.defs_of(f).get(l, [])
+    if proj and len(proj) == 2 and proj[0]["k"] == "downcast" and proj[1]["k"] == "field" and proj[1].get("i") == 0 and len(ds) == 1 \
+            and ds[0][0] == "call" and callee_matches(ds[0][2], *OFFSET_OPTION_CALLS):
+        return True                 # the payload of Some(offset / length inside something in memory)
     if proj:
         if len(proj) == 1 and proj[0]["k"] == "field" and proj[0].get("i") == 0 and len(ds) == 1 and ds[0][0] == "stmt" \
                 and ds[0][3]["rv"]["k"] == "binop" and ds[0][3]["rv"]["op"] in ("AddWithOverflow", "SubWithOverflow"):
@@ -460,7 +479,8 @@ def memory_bounded(f, o, depth=8, seen=None):
         return l <= f.arg_count and ty.replace("&", "").strip() == "usize"
     for d in ds:
         if d[0] == "call":
-            if not (callee_matches(d[2], *LEN_CALLS) or callee_matches(d[2], "Iterator::count", "Iterator>::count", "HashMap::len", "HashSet::len")):
+            if not (callee_matches(d[2], *LEN_CALLS) or callee_matches(d[2], "Iterator::count", "Iterator>::count", "HashMap::len", "HashSet::len",
+                                                                        *OFFSET_CALLS)):
                 return False
             continue
         rv = d[3]["rv"]
